@@ -111,6 +111,10 @@ func C19Group(obs []SigObs) (string, int) {
 		if o.Panic != "" {
 			return "GetMsgSig/String panicked: " + o.Panic, o.Conn
 		}
+		// the sender knows whether it wrote a status line (version in any letter case)
+		if o.Spec != nil && !o.Spec.IsRequest() && o.Err != sipsp.ErrHdrEmpty {
+			return fmt.Sprintf("the peer sent a reply (%q) but it yields signature %q, verdict %d %q, instead of the no-signature indication", o.Spec.FLine, o.Str, o.Err, o.Err), o.Conn
+		}
 		if !o.Request {
 			if o.Err != sipsp.ErrHdrEmpty {
 				return fmt.Sprintf("reply yields signature verdict %d %q instead of the no-signature indication", o.Err, o.Err), o.Conn
